@@ -213,7 +213,7 @@ def tconv(ifm=(1, 8, 8, 8), k=(3, 3), s=(2, 2), same=True, dt="int8", ohw=None, 
     return n.model(), 0
 
 
-def fc(ishape=(1, 64), units=10, dt="int8", wdt=None, bias="int32", keep=False, oshape=None, dynw=False):
+def fc(ishape=(1, 64), units=10, dt="int8", wdt=None, bias="int32", keep=False, oshape=None, dynw=False, per_channel=False):
     n, x = _net(ishape, dt)
     nel = ishape[-1]
     wdt = wdt or ("uint8" if dt == "uint8" else "int8")
@@ -221,7 +221,8 @@ def fc(ishape=(1, 64), units=10, dt="int8", wdt=None, bias="int32", keep=False, 
         wi = n.act([units, nel], wdt, q=(0.005, 0), name="dynw")
         n.inputs.append(wi)
     else:
-        wi = n.const([units, nel], wdt, "weights", scale=[0.005], zp=0 if wdt != "uint8" else 128)
+        wsc = [0.004 + 0.0007 * (i % 5) for i in range(units)] if per_channel else [0.005]
+        wi = n.const([units, nel], wdt, "weights", scale=wsc, zp=0 if wdt != "uint8" else 128)
     ins = [x, wi]
     ins.append(n.const([units], bias, "bias", scale=[n.scale(x) * 0.005], zp=0) if bias else -1)
     if oshape is None:
@@ -538,6 +539,9 @@ def families(tier):
     add("fc.keep_mismatch", fc(ishape=(1, 4, 64), keep=True, oshape=[4, 10]))
     add("fc.4d_in", fc(ishape=(1, 2, 2, 16), oshape=[4, 10]))
     add("fc.dynw", fc(dynw=True))
+    # per-axis quantisation is listed for the three convolution types only: every other tensor role must be refused
+    add("fc.per_channel_weights", fc(per_channel=True))
+    add("fc.per_channel_weights.u8", fc(per_channel=True, dt="uint8"))
     # ---- softmax
     for dt, odt in (("int8", "int8"), ("uint8", "uint8"), ("int16", "int16"), ("int8", "int16"), ("int8", "uint8")):
         add("softmax.types.%s.%s" % (dt, odt), softmax(dt=dt, odt=odt))
